@@ -290,7 +290,7 @@ def run(tier, seed):
         ),
         "samples": samples[:4],
     }
-    if tier == "thorough":
+    if True:  # E5 runs in both tiers (about 6 s for the reader model, 2 s for the sequencer)
         from .. import tlc
 
         tl = tlc.run_reader_conformance()
